@@ -243,6 +243,17 @@ pub static TIMEOUTS: std::sync::atomic::AtomicU32 = std::sync::atomic::AtomicU32
 pub static SKIPPED_AFTER_TIMEOUTS: std::sync::atomic::AtomicU32 = std::sync::atomic::AtomicU32::new(0);
 pub const MAX_TIMEOUTS: u32 = 3;
 
+/// Does the replay file at `path` hold a case for which `pred` holds? Modules replay such cases
+/// individually; every other file (exhaustive suites, seeded scenario rounds, crashes recorded
+/// from a progress marker without the full case) is replayed by re-running the campaign with
+/// the recorded seed and tier, see `conclude()`.
+pub fn replay_case_is(path: &str, pred: impl Fn(&Value) -> bool) -> bool {
+    std::fs::read_to_string(path).ok().and_then(|s| serde_json::from_str::<Value>(&s).ok()).map(|v| pred(&v["case"])).unwrap_or(false)
+}
+pub fn is_bool_kind(c: &Value) -> bool {
+    matches!(c["kind"].as_str(), Some("bdd" | "bcdd" | "zbdd"))
+}
+
 /// Run a single closure in a forked child.
 pub fn isolated(timeout_s: u64, mut f: impl FnMut(&mut dyn Write)) -> JobOut {
     use std::sync::atomic::Ordering::Relaxed;
